@@ -20,6 +20,7 @@
 //!     `T toks` text, `D NAME toks`, `U NAME`, `IFDEF NAME`, `IFNDEF NAME`, `IF toks`, `ELIF toks`, `ELSE`, `ENDIF`
 //!   observe : `ok:<tokens>` | `err:<kind>` from the real preprocessor started with the define list *observed* for the target
 //!   oracle  : programs that do not mention RSSL_TARGET_* give the same result on all four targets
+use crate::c17::wgen::{gen_wide, render_wide, RenderOpts, WItem, WProgram, WideOpts};
 use crate::compile_util::*;
 use crate::progen::*;
 use crate::util::*;
@@ -52,10 +53,15 @@ enum Verdict {
 }
 
 fn compile_info(files: &[(String, String)], defines: &[(&str, &str)], tgt: Tgt, mode: &Mode) -> Verdict {
+    compile_info_vl(files, defines, tgt, mode, false)
+}
+
+fn compile_info_vl(files: &[(String, String)], defines: &[(&str, &str)], tgt: Tgt, mode: &Mode, validate_layout: bool) -> Verdict {
     let r = guard(|| {
         let mut inc = MemFiles(files.to_vec());
         let mut args = rssl::CompileArgs::new("main.rssl", &mut inc, tgt.target())
             .defines(defines)
+            .validate_layout_consistency(validate_layout)
             .support_buffer_address(tgt.buffer_address());
         match mode {
             Mode::All => {}
@@ -145,6 +151,9 @@ struct Built {
     defines: Vec<(String, String)>,
     /// control: the file *does* test a target macro, the oracle is expected to flag it
     control: bool,
+    /// `wide` variants (self-contained programs of harness/src/c17/wgen.rs): names and stage lists of the active
+    /// pipelines, computed from the program text; `None` = take them from `prog`
+    wide_pipes: Option<Vec<(String, String)>>,
 }
 
 pub const VARIANTS: &[&str] = &[
@@ -203,6 +212,16 @@ pub const VARIANTS: &[&str] = &[
     "reserved-cb-double",
     "entry-texture",
     "entry-kernel",
+    "wide",
+    "wide-rich",
+    "wide-odd",
+    "wide-inc-on",
+    "wide",
+    "wide-odd-rich",
+    "wide-on",
+    "wide-rich-inc",
+    "layout-trap-vl",
+    "plain-vl",
 ];
 
 fn decls_of(p: &Program) -> Vec<DeclDesc> {
@@ -297,6 +316,9 @@ fn build(seed: u64, variant_full: &str) -> Option<Built> {
 }
 
 fn build_with(seed: u64, variant: &str, drops: &str) -> Option<Built> {
+    if variant == "wide" || variant.starts_with("wide-") {
+        return build_wide(seed, variant, drops);
+    }
     let mut rng = Rng::new(seed);
     let opts = GenOpts { allow_mesh: seed % 3 == 0, ..GenOpts::default() };
     let mut prog = gen_program(&mut rng, &opts);
@@ -400,7 +422,7 @@ fn build_with(seed: u64, variant: &str, drops: &str) -> Option<Built> {
         .unwrap_or(nlines);
     drop(lines);
     src = match variant {
-        "plain" | "state" => src,
+        "plain" | "state" | "plain-vl" => src,
         v if v.starts_with("reserved-") || v.starts_with("entry-") => src,
         "pp-guard" => format!("#ifndef MAIN_GUARD\n#define MAIN_GUARD\n{}#endif\n#ifndef MAIN_GUARD\nthis is never parsed @\n#endif\n", src),
         "pp-macros" => {
@@ -455,7 +477,7 @@ fn build_with(seed: u64, variant: &str, drops: &str) -> Option<Built> {
             includes.push(("common/decls.rssl".into(), common));
             main
         }
-        "layout-trap" => {
+        "layout-trap" | "layout-trap-vl" => {
             // a struct whose HLSL structured-buffer layout and Metal layout differ: accepted everywhere as long as the
             // optional layout validation is off for every target
             decls.push(DeclDesc { name: "g_trap".into(), kind: "StructuredBuffer".into(), len: "-".into(), ss: false });
@@ -512,7 +534,131 @@ fn build_with(seed: u64, variant: &str, drops: &str) -> Option<Built> {
     if variant == "e-pp-unterminated" {
         expect_front_reject = true;
     }
-    Some(Built { src, decls, prog, expect_front_reject, includes, defines, control })
+    Some(Built { src, decls, prog, expect_front_reject, includes, defines, control, wide_pipes: None })
+}
+
+/// `wide[-odd][-inc][-on][-rich]`: a program of the C17 wide generator (every resource kind incl. typedef'd, unsized,
+/// bindless arrays, cbuffers with 0-5 members, static samplers with properties, inactive text that names the target
+/// macros, 9 entry signature shapes, every pipeline state property); `-odd` = with the generator's odd edits (mostly
+/// front-end rejections of the type checker), `-inc` = part of the file included, `-on` = API define WIDE_ON,
+/// `-rich` = function bodies that call methods on the resources.  Shrinking drops resource / pipeline items.
+fn build_wide(seed: u64, variant: &str, drops: &str) -> Option<Built> {
+    let opts: Vec<&str> = variant.split('-').skip(1).collect();
+    if opts.iter().any(|o| !["odd", "inc", "on", "rich"].contains(o)) {
+        return None;
+    }
+    let has = |o: &str| opts.contains(&o);
+    let mut rng = Rng::new(seed ^ 0x18_18);
+    let wo = WideOpts {
+        allow_mesh: seed % 3 == 0,
+        odd_percent: if has("odd") { 100 } else { 0 },
+        no_overloads: true,
+        rich_percent: if has("rich") { 100 } else { 30 },
+        unsized_arrays: seed % 4 == 0,
+        ..WideOpts::default()
+    };
+    let mut prog = gen_wide(&mut rng, &wo);
+    let mut tries = 0;
+    while prog.pipes().is_empty() && seed % 16 != 1 && tries < 20 {
+        prog = gen_wide(&mut rng, &wo);
+        tries += 1;
+    }
+    // shrinking: drop the k-th resource / pipeline item, helper calls, statics
+    let mut rdrop: Vec<usize> = Vec::new();
+    let mut pdrop: Vec<usize> = Vec::new();
+    let (mut no_helpers, mut no_statics) = (false, false);
+    for d in drops.split('.').filter(|d| !d.is_empty()) {
+        match (d.chars().next(), d[1..].parse::<usize>()) {
+            (Some('r'), Ok(i)) => rdrop.push(i),
+            (Some('p'), Ok(i)) => pdrop.push(i),
+            (Some('h'), _) => no_helpers = true,
+            (Some('s'), _) => no_statics = true,
+            _ => return None,
+        }
+    }
+    if rdrop.iter().any(|i| *i >= prog.resources().len()) || pdrop.iter().any(|i| *i >= prog.pipes().len()) {
+        return None;
+    }
+    let dropped_res: Vec<String> = prog.resources().iter().enumerate().filter(|(i, _)| rdrop.contains(i)).map(|(_, r)| r.name.clone()).collect();
+    let (mut ri, mut pi) = (0usize, 0usize);
+    let mut items = Vec::new();
+    for it in &prog.items {
+        match it {
+            WItem::Res(_) => {
+                if !rdrop.contains(&ri) {
+                    items.push(it.clone());
+                }
+                ri += 1;
+            }
+            WItem::Pipe(_) => {
+                if !pdrop.contains(&pi) {
+                    items.push(it.clone());
+                }
+                pi += 1;
+            }
+            WItem::Static(_) if no_statics => {}
+            WItem::Func(f) => {
+                let mut f = f.clone();
+                f.uses.retain(|u| !dropped_res.contains(u));
+                if no_helpers {
+                    f.calls.clear();
+                }
+                if no_statics {
+                    f.statics.clear();
+                }
+                items.push(WItem::Func(f));
+            }
+            _ => items.push(it.clone()),
+        }
+    }
+    let prog = WProgram { items };
+    let on = has("on");
+    let act = prog.active(on);
+    let decls: Vec<DeclDesc> = prog
+        .resources()
+        .iter()
+        .map(|r| DeclDesc {
+            name: r.name.clone(),
+            kind: if r.kind == "TrapBuffer" { "StructuredBuffer".to_string() } else { r.kind.clone() },
+            len: if r.kind == "cbuffer" {
+                "-".into()
+            } else {
+                match r.len {
+                    Some(0) => "*".into(),
+                    Some(n) => n.to_string(),
+                    None => "-".into(),
+                }
+            },
+            ss: r.static_sampler,
+        })
+        .collect();
+    // stage lists as the pipeline blocks spell them (meaningful when the front end accepts the file)
+    let mut wide_pipes = Vec::new();
+    for p in act.pipes() {
+        let mut st = Vec::new();
+        for pr in &p.props {
+            let Some(stage) = pr.name.strip_suffix("Shader") else { continue };
+            if !["Vertex", "Pixel", "Compute", "Mesh", "Task"].contains(&stage) {
+                continue;
+            }
+            let entry = match &pr.val {
+                crate::c17::wgen::Val::Ident(n) => n.clone(),
+                _ => "?".to_string(),
+            };
+            let th = act.funcs().iter().find(|f| f.name == entry && !f.flags.contains('d')).and_then(|f| f.threads);
+            st.push(match th {
+                Some(t) => format!("{}={}@{}x{}x{}", stage, entry, t[0].v, t[1].v, t[2].v),
+                None => format!("{}={}", stage, entry),
+            });
+        }
+        wide_pipes.push((p.name.clone(), st.join(",")));
+    }
+    let r = render_wide(&prog, &RenderOpts { include: has("inc") });
+    let src = r.files[0].1.clone();
+    let includes: Vec<(String, String)> = r.files[1..].to_vec();
+    let defines: Vec<(String, String)> = if on { vec![("WIDE_ON".into(), "1".into())] } else { Vec::new() };
+    let empty = Program { nstatics: 0, resources: Vec::new(), helpers: Vec::new(), entries: Vec::new(), pipes: Vec::new(), layout: 0 };
+    Some(Built { src, decls, prog: empty, expect_front_reject: false, includes, defines, control: false, wide_pipes: Some(wide_pipes) })
 }
 
 // ------------------------------------------------------------------------------------------------ oracle helpers
@@ -695,12 +841,17 @@ fn run_cross(seed: u64, variant: &str, out: &mut Out, hist: &mut Hist) {
     let mut files = vec![("main.rssl".to_string(), b.src.clone())];
     files.extend(b.includes.iter().cloned());
     let defs: Vec<(&str, &str)> = b.defines.iter().map(|(a, c)| (a.as_str(), c.as_str())).collect();
+    // `<variant>-vl`: the optional layout validation is requested for every target
+    let validate = variant.split('~').next().unwrap_or("").ends_with("-vl");
     let results: Vec<(Tgt, Verdict)> =
-        ALL_TARGETS.iter().map(|t| (*t, compile_info(&files, &defs, *t, &Mode::All))).collect();
+        ALL_TARGETS.iter().map(|t| (*t, compile_info_vl(&files, &defs, *t, &Mode::All, validate))).collect();
     let decls: Vec<String> =
         b.decls.iter().map(|d| format!("{}:{}:{}:{}", d.name, d.kind, d.len, if d.ss { 1 } else { 0 })).collect();
-    let pipe_names: Vec<String> = b.prog.pipes.iter().map(|p| p.name.clone()).collect();
-    let pipes: Vec<String> = b
+    let pipe_names: Vec<String> = match &b.wide_pipes {
+        Some(wp) => wp.iter().map(|(n, _)| n.clone()).collect(),
+        None => b.prog.pipes.iter().map(|p| p.name.clone()).collect(),
+    };
+    let legacy_pipes: Vec<String> = b
         .prog
         .pipes
         .iter()
@@ -720,6 +871,12 @@ fn run_cross(seed: u64, variant: &str, out: &mut Out, hist: &mut Hist) {
         })
         .collect();
     let verdicts: Vec<String> = results.iter().map(|(t, v)| format!("{}={}", t.name(), class(v))).collect();
+    let pipes: Vec<String> = match &b.wide_pipes {
+        // the stage lists of a wide program are read off its text: they mean something only if the file is accepted
+        Some(_) if !results.iter().any(|(_, v)| matches!(v, Verdict::Ok(_))) => Vec::new(),
+        Some(wp) => wp.iter().map(|(n, st)| format!("{}:{}", n, st)).collect(),
+        None => legacy_pipes,
+    };
     let req = format!(
         "C18.cross\t{}\t{}\t{}\t{}\t{}",
         seed,
@@ -795,6 +952,50 @@ fn run_cross(seed: u64, variant: &str, out: &mut Out, hist: &mut Hist) {
                 }
                 if !has_address && v[i].text != va[i].text {
                     fails.push(format!("pipeline {}: vk and vk+buffer-address sources differ without any buffer address", i));
+                }
+                if has_address {
+                    // "differ only in how buffer addresses are lowered": every line that is not the same in both texts
+                    // names a declared buffer address (its declaration, a use) or the inline descriptor block that
+                    // replaces the bindings; all other lines are equal, in order
+                    let addr_names: Vec<&str> =
+                        b.decls.iter().filter(|d| d.kind.contains("Address")).map(|d| d.name.as_str()).collect();
+                    let keep = |text: &str| -> Vec<String> {
+                        let mut out = Vec::new();
+                        let mut in_block = false;
+                        for l in text.lines() {
+                            // the generated `struct InlineDescriptorN { .. };` / cbuffer that carries the addresses
+                            if l.contains("InlineDescriptor") || l.contains("g_inlineDescriptor") {
+                                if l.trim_end().ends_with('{') || !l.contains(';') {
+                                    in_block = true;
+                                }
+                                continue;
+                            }
+                            if in_block {
+                                if l.starts_with('}') {
+                                    in_block = false;
+                                }
+                                continue;
+                            }
+                            let toks = tokens(l);
+                            if toks.iter().any(|t| addr_names.iter().any(|a| t == a || t.starts_with(&format!("{}.", a)) || base_name(t, &addr_names) == *a)) {
+                                continue;
+                            }
+                            out.push(l.to_string());
+                        }
+                        out
+                    };
+                    // binding numbers move when the addresses leave the descriptor table: annotations are erased here too
+                    let (kv, kva) = (
+                        erase_annotations(&tokens(&keep(&v[i].text).join("\n"))),
+                        erase_annotations(&tokens(&keep(&va[i].text).join("\n"))),
+                    );
+                    if kv != kva {
+                        fails.push(format!(
+                            "pipeline {}: vk and vk+buffer-address sources differ on a line that names no buffer address {}",
+                            i,
+                            first_diff(&kv, &kva)
+                        ));
+                    }
                 }
                 // 4. entry names among the HLSL flavours
                 if d[i].stages != v[i].stages || d[i].stages != va[i].stages {
@@ -896,7 +1097,7 @@ fn run_cross(seed: u64, variant: &str, out: &mut Out, hist: &mut Hist) {
     let _ = msl;
     hist.add(&format!("variant={}", variant));
     hist.add(&format!("verdicts={}", verdicts.join(",")));
-    hist.add(&format!("pipes={}", b.prog.pipes.len()));
+    hist.add(&format!("pipes={}", pipe_names.len()));
     hist.add(&format!("resources={}", b.decls.len()));
     for d in &b.decls {
         hist.add(&format!("kind={}", d.kind));
@@ -927,6 +1128,167 @@ fn run_cross(seed: u64, variant: &str, out: &mut Out, hist: &mut Hist) {
     }
     let oracle = if fails.is_empty() { "ok".to_string() } else { format!("FAIL:{}", fails[0]) };
     out.case(&req, &obs, &oracle);
+}
+
+// ------------------------------------------------------------------------------------------------ C18.simplify
+
+/// `C18.simplify <program>`: the root definitions that go back to the program's resources after the real
+/// `assign_api_bindings` (Metal parameters) + `simplify_cbuffers`, in order:
+/// `struct:<name>:<members>`, `global:<name>:<ConstantBuffer|obj|plain>:<slot|noslot>`, `cbuffer:<name>`.
+/// Oracle: no cbuffer block is left; every block of the program (empty ones too) has become a struct `<name>Type` with its
+/// members directly followed by a bound `ConstantBuffer` global of the block's name; nothing else was added or removed.
+fn run_simplify(prog_s: &str, out: &mut Out, hist: &mut Hist) {
+    let req = format!("C18.simplify\t{}", prog_s);
+    let Some(prog) = WProgram::parse(prog_s) else {
+        out.case(&req, "", "SKIP:bad program");
+        return;
+    };
+    let r = render_wide(&prog, &RenderOpts { include: false });
+    let names: Vec<String> = prog.resources().iter().map(|r| r.name.clone()).collect();
+    let cbuffers: Vec<(String, u32)> =
+        prog.resources().iter().filter(|r| r.kind == "cbuffer").map(|r| (r.name.clone(), r.len.unwrap_or(1))).collect();
+    let res = guard(|| -> Result<(Vec<String>, usize, usize), String> {
+        let m = front_end("main.rssl", &r.files, &[]).map_err(|e| e.text().to_string())?;
+        let m = m.assign_api_bindings(&rssl::AssignBindingsParams {
+            require_slot_type: false,
+            support_buffer_address: false,
+            metal_slot_layout: true,
+            static_samplers_have_slots: false,
+        });
+        let before = m.root_definitions.len();
+        let mut m = m;
+        rssl::ir::simplify_cbuffers(&mut m);
+        let mut v = Vec::new();
+        for d in &m.root_definitions {
+            match d {
+                rssl::ir::RootDefinition::Struct(id) => {
+                    let sd = &m.struct_registry[id.0 as usize];
+                    if cbuffers.iter().any(|(n, _)| format!("{}Type", n) == sd.name.node) {
+                        v.push(format!("struct:{}:{}", sd.name.node, sd.members.len()));
+                    }
+                }
+                rssl::ir::RootDefinition::GlobalVariable(id) => {
+                    let g = &m.global_registry[id.0 as usize];
+                    if names.contains(&g.name.node) {
+                        let ty = m.type_registry.remove_modifier(g.type_id);
+                        let ty = match m.type_registry.get_type_layer(ty) {
+                            rssl::ir::TypeLayer::Array(inner, _) => m.type_registry.remove_modifier(inner),
+                            _ => ty,
+                        };
+                        let kind = match m.type_registry.get_type_layer(ty) {
+                            rssl::ir::TypeLayer::Object(rssl::ir::ObjectType::ConstantBuffer(_)) => "ConstantBuffer",
+                            rssl::ir::TypeLayer::Object(_) => "obj",
+                            _ => "plain",
+                        };
+                        // whether an ordinary global has a slot depends on the binding parameters (static samplers on
+                        // Metal): only the globals made from cbuffer blocks are expected to carry one whatever they are
+                        if cbuffers.iter().any(|(n, _)| *n == g.name.node) {
+                            v.push(format!("global:{}:{}:{}", g.name.node, kind, if g.api_slot.is_some() { "slot" } else { "noslot" }));
+                        } else {
+                            v.push(format!("global:{}:{}", g.name.node, kind));
+                        }
+                    }
+                }
+                rssl::ir::RootDefinition::ConstantBuffer(id) => {
+                    v.push(format!("cbuffer:{}", id.0));
+                }
+                _ => {}
+            }
+        }
+        Ok((v, before, m.root_definitions.len()))
+    });
+    match res {
+        Ok(Ok((v, before, after))) => {
+            let mut fails: Vec<String> = Vec::new();
+            if v.iter().any(|x| x.starts_with("cbuffer:")) {
+                fails.push("a cbuffer block survives simplify_cbuffers".into());
+            }
+            for (n, members) in &cbuffers {
+                let want = [format!("struct:{}Type:{}", n, members), format!("global:{}:ConstantBuffer:slot", n)];
+                match v.iter().position(|x| *x == want[0]) {
+                    Some(i) if v.get(i + 1) == Some(&want[1]) => {}
+                    _ => fails.push(format!("cbuffer {} ({} members) did not become `{}` followed by `{}`", n, members, want[0], want[1])),
+                }
+            }
+            if after != before + cbuffers.len() {
+                fails.push(format!("{} root definitions became {} with {} cbuffer blocks", before, after, cbuffers.len()));
+            }
+            hist.add(&format!("simplify-cbuffers={}", cbuffers.len()));
+            if cbuffers.iter().any(|(_, m)| *m == 0) {
+                hist.add("simplify-empty-cbuffer");
+            }
+            let oracle = if fails.is_empty() { "ok".to_string() } else { format!("FAIL:{}", fails[0]) };
+            out.case(&req, &v.join(";"), &oracle);
+        }
+        Ok(Err(e)) => out.case(&req, "front", &format!("SKIP:front end rejects the program: {}", one_line(&e.chars().take(80).collect::<String>()))),
+        Err(p) => out.case(&req, &format!("panic:{}", p), &format!("FAIL:panic {}", p)),
+    }
+}
+
+// ------------------------------------------------------------------------------------------------ C18.annot
+
+/// `C18.annot <on|off> <program>`: for every pipeline of a wide program, how many `register(`, `[[vk::binding(`,
+/// `[[vk::ext_decorate(`, `[[vk::ext_extension(` the DirectX and the Vulkan export contain:
+/// `P0{dx:3,0,0,0;vk:0,3,1,1}..` | front | back.  Oracle (the property's words): a DirectX export has no `[[vk::` at all,
+/// a Vulkan export no `register(`, both have as many binding annotations as reported bindings.
+fn run_annot(on: bool, prog_s: &str, out: &mut Out, hist: &mut Hist) {
+    let Some(prog) = WProgram::parse(prog_s) else {
+        out.case(&format!("C18.annot\t{}\t{}\tbackend=ok", if on { "on" } else { "off" }, prog_s), "", "SKIP:bad program");
+        return;
+    };
+    let r = render_wide(&prog, &RenderOpts { include: false });
+    let defs: Vec<(&str, &str)> = if on { vec![("WIDE_ON", "1")] } else { Vec::new() };
+    let dx = compile_info(&r.files, &defs, Tgt::Dx, &Mode::All);
+    let vk = compile_info(&r.files, &defs, Tgt::Vk, &Mode::All);
+    // whether the exporter itself gives up (a documented GenerateError) is an input of the model
+    let req = format!(
+        "C18.annot\t{}\t{}\tbackend={}",
+        if on { "on" } else { "off" },
+        prog_s,
+        if class(&dx) == "back" || class(&vk) == "back" { "err" } else { "ok" }
+    );
+    let names: Vec<String> = prog.active(on).pipes().iter().map(|p| p.name.clone()).collect();
+    let count = |t: &str| -> (usize, usize, usize, usize) {
+        (t.matches("register(").count(), t.matches("[[vk::binding(").count(), t.matches("[[vk::ext_decorate(").count(), t.matches("[[vk::ext_extension(").count())
+    };
+    match (&dx, &vk) {
+        (Verdict::Ok(d), Verdict::Ok(v)) if d.len() == v.len() && d.len() == names.len() => {
+            let mut obs = String::new();
+            let mut fails: Vec<String> = Vec::new();
+            for i in 0..d.len() {
+                let (a, b) = (count(&d[i].text), count(&v[i].text));
+                obs.push_str(&format!("{}{{dx:{},{},{},{};vk:{},{},{},{}}}", names[i], a.0, a.1, a.2, a.3, b.0, b.1, b.2, b.3));
+                if d[i].text.contains("[[vk::") {
+                    fails.push(format!("pipeline {}: the DirectX export contains a [[vk:: attribute", names[i]));
+                }
+                if b.0 != 0 {
+                    fails.push(format!("pipeline {}: the Vulkan export contains a register annotation", names[i]));
+                }
+                if a.0 != d[i].bindings.len() || b.1 != v[i].bindings.len() {
+                    fails.push(format!(
+                        "pipeline {}: {} register annotations for {} DirectX bindings, {} vk::binding for {} Vulkan bindings",
+                        names[i], a.0, d[i].bindings.len(), b.1, v[i].bindings.len()
+                    ));
+                }
+                if b.2 + b.3 > 0 {
+                    hist.add("annot-per-primitive");
+                }
+            }
+            hist.add("annot-ok");
+            let oracle = if fails.is_empty() { "ok".to_string() } else { format!("FAIL:{}", fails[0]) };
+            out.case(&req, &obs, &oracle);
+        }
+        (Verdict::Panic(p), _) | (_, Verdict::Panic(p)) => out.case(&req, &format!("panic:{}", p), &format!("FAIL:panic {}", p)),
+        (Verdict::Err(e), _) if e == "Shader does not contain a single pipeline" => {
+            hist.add("annot-none");
+            out.case(&req, "none", "ok");
+        }
+        _ => {
+            let c = class(&dx);
+            hist.add(&format!("annot-{}", c));
+            out.case(&req, if c == "ok" { "back" } else { c }, "ok");
+        }
+    }
 }
 
 // ------------------------------------------------------------------------------------------------ C18.defines
@@ -1235,6 +1597,8 @@ pub fn run(args: &Args, out: &mut Out) {
                         run_cross(seed, f[2], out, &mut hist);
                     }
                 }
+                "C18.simplify" if f.len() == 2 => run_simplify(f[1], out, &mut hist),
+                "C18.annot" if f.len() == 4 => run_annot(f[1] == "on", f[2], out, &mut hist),
                 "C18.defines" if f.len() == 2 => {
                     if let Some(t) = Tgt::parse(f[1]) {
                         run_defines(t, out);
@@ -1264,6 +1628,36 @@ pub fn run(args: &Args, out: &mut Out) {
         let seed = rng.next() >> 16;
         let variant = VARIANTS[(i as usize) % VARIANTS.len()];
         run_cross(seed, variant, out, &mut hist);
+    }
+    // the wide programs of the C17 generator, every option combination by turns
+    const WIDE_VARIANTS: &[&str] = &[
+        "wide", "wide-rich", "wide-odd", "wide-inc-on", "wide-rich-on", "wide-odd-rich", "wide-on", "wide-rich-inc", "wide-odd-inc",
+        "wide-rich", "wide-odd-on", "wide-rich-inc-on",
+    ];
+    let nw = if args.n.is_some() { 0 } else if args.thorough() { 5000 } else { 400 };
+    for i in 0..nw {
+        let seed = rng.next() >> 16;
+        run_cross(seed, WIDE_VARIANTS[(i as usize) % WIDE_VARIANTS.len()], out, &mut hist);
+    }
+    // the Metal-only rewrite of cbuffer blocks on accepted wide programs
+    let ns = if args.n.is_some() { 0 } else if args.thorough() { 3000 } else { 300 };
+    for i in 0..ns {
+        let mut prng = rng.fork();
+        let wo = WideOpts {
+            odd_percent: 0,
+            bad_sampler_percent: 0,
+            no_overloads: true,
+            cbuffer_percent: 35,
+            allow_mesh: i % 2 == 0,
+            unsized_arrays: i % 3 == 0,
+            ..WideOpts::default()
+        };
+        let prog = gen_wide(&mut prng, &wo);
+        run_simplify(&prog.show(), out, &mut hist);
+        // annotation counts: mesh pipelines are what makes the per-primitive sites show
+        let wo = WideOpts { odd_percent: if i % 4 == 0 { 60 } else { 0 }, bad_sampler_percent: 0, no_overloads: true, allow_mesh: true, ..WideOpts::default() };
+        let prog = gen_wide(&mut prng, &wo);
+        run_annot(i % 2 == 0, &prog.show(), out, &mut hist);
     }
     let defs = defs_by_target(out);
     let npp = if args.thorough() { 20000 } else { 1500 };
